@@ -4,7 +4,7 @@
    value thunk of the definition found, an EARLIER location.  The lazy "evaluation" of every fragment expression
    whose strict evaluation succeeds converges.  The invariants of the limits are those of the `lres` lemmas. *)
 From TSG Require Import Model.Lazy Proofs.BaseFacts Proofs.Containers Proofs.MonadFacts Proofs.SLGraph Proofs.SLForce Proofs.SLExpr Proofs.SLConv
-  Proofs.SL2Force Proofs.SL2Expr.
+  Proofs.Scoped Proofs.SL2Force Proofs.SL2Expr.
 
 Lemma conv_bind_const {S A B} (x : M S A) (f : nat -> A -> M S B) s p a s1 p1 :
   x s p = Ok (a, s1, p1) -> conv (fun lf => f lf a s1 p1) -> conv (fun lf => bind x (f lf) s p).
@@ -88,17 +88,18 @@ Section Force2Conv.
     (forall ls vs, Forall2 (fun l v => den2 w b l v /\ P l v) ls vs -> P (LList ls) (VList vs)) ->
     (forall ls vs, Forall2 (fun l v => den2 w b l v /\ P l v) ls vs -> P (LSet ls) (VSet (set_of_list vs))) ->
     (forall loc v pb, nth_error (w_rho w) (N.to_nat loc) = Some (v, pb) -> (b = true -> pb = true) -> P (LVar loc) v) ->
-    (forall sv name n loc v pb, b = false -> den2 w b sv (VSyn n) -> P sv (VSyn n) -> In (n, name, loc) (w_sig w) ->
+    (forall sv name n a loc v pb, b = false -> den2 w b sv (VSyn n) -> P sv (VSyn n) ->
+       (a = n \/ (winh w name = true /\ In a (anc (w_tree w) n))) -> In (a, name, loc) (w_sig w) ->
        nth_error (w_rho w) loc = Some (v, pb) -> P (LScoped sv name) v) ->
     (forall f args vs v, Forall2 (fun l v => den2 w b l v /\ P l v) args vs -> (forall g, call f g vs = Ok (v, g)) -> P (LCall f args) v) ->
     forall lv v, den2 w b lv v -> P lv v.
   Proof.
-    intros H1 H2 H3 H4 H5 H6. fix IH 3. intros lv v H. destruct H as [v|ls vs HF|ls vs HF|loc v pb Hn Hb|sv name n loc v pb Eb Hsv Hin Hn|f args vs v HF Hc].
+    intros H1 H2 H3 H4 H5 H6. fix IH 3. intros lv v H. destruct H as [v|ls vs HF|ls vs HF|loc v pb Hn Hb|sv name n a loc v pb Eb Hsv Ha Hin Hn|f args vs v HF Hc].
     - apply H1.
     - apply H2. revert ls vs HF. fix IHF 3. intros ls vs HF. destruct HF as [|x y l l' Hxy HF]; constructor; [split; [exact Hxy|apply IH, Hxy]|apply IHF, HF].
     - apply H3. revert ls vs HF. fix IHF 3. intros ls vs HF. destruct HF as [|x y l l' Hxy HF]; constructor; [split; [exact Hxy|apply IH, Hxy]|apply IHF, HF].
     - apply (H4 loc v pb Hn Hb).
-    - apply (H5 sv name n loc v pb Eb Hsv (IH _ _ Hsv) Hin Hn).
+    - apply (H5 sv name n a loc v pb Eb Hsv (IH _ _ Hsv) Ha Hin Hn).
     - apply (H6 f args vs v); [|exact Hc]. clear Hc. revert args vs HF. fix IHF 3. intros args vs HF.
       destruct HF as [|x y l l' Hxy HF]; constructor; [split; [exact Hxy|apply IH, Hxy]|apply IHF, HF].
   Qed.
@@ -145,7 +146,7 @@ Section Force2Conv.
       eapply conv_shift; [intros F; cbn [eval_lv]; reflexivity|].
       destruct (poll_nob L_eval_value ls p Hb) as (p' & E & Hb'). unfold bind at 1, lpoll. rewrite E.
       apply (thunk0_conv_aux w k IHk loc v ls p' Hst Hlt Hn Hb').
-    - intros sv name n loc v pb Eb. discriminate.
+    - intros sv name n a loc v pb Eb. discriminate.
     - intros f args vs v HF Hc ls p Hst Hb. eapply conv_shift; [intros F; cbn [eval_lv]; reflexivity|].
       destruct (poll_nob L_eval_value ls p Hb) as (p' & E & Hb'). unfold bind at 1, lpoll. rewrite E.
       apply (gconv_call call _ _ _ (T0_refl k w) (T0_trans k w) eval_lv' (spec0 k w) f args vs v ls p' HF Hc Hst Hb').
@@ -208,8 +209,8 @@ Section Force2Conv.
 
   (* ================= level 1 ================= *)
   Definition fconv1 (k : nat) (w : world) (lv : lvalue) : Prop := gconv (I1 call k w) eval_lv' lv.
-  Lemma spec1 k w : sig_nodup w -> forall F, gspec (den2 (wcut k w) false) (I1 call k w) (T1 k w) (eval_lv' F).
-  Proof. intros Hnd F. apply (force1_all call t fl F w Hnd). Qed.
+  Lemma spec1 k w : sig_nodup w -> sig_antichain w -> wstatic t fl w -> forall F, gspec (den2 (wcut k w) false) (I1 call k w) (T1 k w) (eval_lv' F).
+  Proof. intros Hnd Hac Hws F. apply (force1_all call t fl F w Hnd Hac Hws). Qed.
 
   Lemma thunk1_conv_aux w (Hnd : sig_nodup w) k (IHk : forall k', (k' < k)%nat -> forall lv v, den2 (wcut k' w) false lv v -> fconv1 k' w lv) loc v pb ls p :
     I1 call k w (l_store ls) (l_scoped ls) -> (N.to_nat loc < k)%nat -> nth_error (w_rho w) (N.to_nat loc) = Some (v, pb) -> nob p ->
@@ -237,9 +238,9 @@ Section Force2Conv.
       + eapply conv_const. reflexivity.
   Qed.
 
-  Lemma force1_conv w : sig_nodup w -> forall k lv v, den2 (wcut k w) false lv v -> fconv1 k w lv.
+  Lemma force1_conv w : sig_nodup w -> sig_antichain w -> wstatic t fl w -> forall k lv v, den2 (wcut k w) false lv v -> fconv1 k w lv.
   Proof.
-    intros Hnd. induction k as [k IHk] using lt_wf_ind.
+    intros Hnd Hac Hws. induction k as [k IHk] using lt_wf_ind.
     assert (Hvar : forall loc v pb, nth_error (w_rho (wcut k w)) (N.to_nat loc) = Some (v, pb) -> fconv1 k w (LVar loc)).
     { intros loc v pb Hn ls p Hst Hb. cbn [wcut w_rho] in Hn. apply nth_error_firstn_lt in Hn. destruct Hn as [Hlt Hn].
       eapply conv_shift; [intros F; cbn [eval_lv]; reflexivity|].
@@ -250,25 +251,26 @@ Section Force2Conv.
       destruct (poll_nob L_eval_value ls p Hb) as (p' & E & _). eapply conv_const. unfold bind, lpoll. rewrite E. reflexivity.
     - intros es vs HF ls p Hst Hb. eapply conv_shift; [intros F; cbn [eval_lv]; reflexivity|].
       destruct (poll_nob L_eval_value ls p Hb) as (p' & E & Hb'). unfold bind at 1, lpoll. rewrite E.
-      apply conv_bind; [apply (gconv_mapM _ _ _ eval_lv' (spec1 k w Hnd) es vs HF ls p' Hst Hb')|]. intros vs' ls1 p1 B0 _. eapply conv_const. reflexivity.
+      apply conv_bind; [apply (gconv_mapM _ _ _ eval_lv' (spec1 k w Hnd Hac Hws) es vs HF ls p' Hst Hb')|]. intros vs' ls1 p1 B0 _. eapply conv_const. reflexivity.
     - intros es vs HF ls p Hst Hb. eapply conv_shift; [intros F; cbn [eval_lv]; reflexivity|].
       destruct (poll_nob L_eval_value ls p Hb) as (p' & E & Hb'). unfold bind at 1, lpoll. rewrite E.
-      apply conv_bind; [apply (gconv_mapM _ _ _ eval_lv' (spec1 k w Hnd) es vs HF ls p' Hst Hb')|]. intros vs' ls1 p1 B0 _. eapply conv_const. reflexivity.
+      apply conv_bind; [apply (gconv_mapM _ _ _ eval_lv' (spec1 k w Hnd Hac Hws) es vs HF ls p' Hst Hb')|]. intros vs' ls1 p1 B0 _. eapply conv_const. reflexivity.
     - intros loc v pb Hn _. apply (Hvar loc v pb Hn).
     - (* scoped read *)
-      intros sv name n loc v pb _ Hsv IHsv Hin Hn ls p Hst Hb. cbn [wcut w_sig] in Hin.
+      intros sv name n a loc v pb _ Hsv IHsv Ha Hin Hn ls p Hst Hb.
+      change (winh (wcut k w) name) with (winh w name) in Ha. cbn [wcut w_sig w_tree] in Hin, Ha.
       eapply conv_shift; [intros F; cbn [eval_lv]; reflexivity|].
       destruct (poll_nob L_eval_value ls p Hb) as (p' & E & Hb'). unfold bind at 1, lpoll. rewrite E.
       apply conv_bind.
       + apply conv_ctx. apply conv_bind; [apply (IHsv ls p' Hst Hb')|]. intros v' ls1 p1 B0 HB.
-        pose proof (g_limit _ _ _ eval_lv' (spec1 k w Hnd) sv (VSyn n) ls p' B0 _ _ _ Hst Hsv Hb' HB) as (-> & _). eapply conv_const. reflexivity.
+        pose proof (g_limit _ _ _ eval_lv' (spec1 k w Hnd Hac Hws) sv (VSyn n) ls p' B0 _ _ _ Hst Hsv Hb' HB) as (-> & _). eapply conv_const. reflexivity.
       + intros n' ls1 p1 B0 HB.
         assert (HP : gpost (I1 call k w) (T1 k w) n ls n' ls1 p1).
         { apply (conv_lres (fun F => ctx_wrap CtxOther (x <- eval_lv' F sv ;; lift (as_syn x)) ls p') _ B0 _ _ _ HB). intros F.
-          apply lres_ctx. apply lres_bind. eapply lres_mono; [apply (spec1 k w Hnd F sv (VSyn n) ls p' Hst Hsv Hb')|].
+          apply lres_ctx. apply lres_bind. eapply lres_mono; [apply (spec1 k w Hnd Hac Hws F sv (VSyn n) ls p' Hst Hsv Hb')|].
           intros v' ls0 p0 (-> & H). eapply lres_lift; [reflexivity|]. split; [reflexivity|exact H]. }
         destruct HP as (-> & Hb1 & G1). pose proof (gstep_inv _ _ _ _ G1) as [Hst1 Hc1].
-        pose proof (Hc1 name) as Hcell. pose proof (sig_for_in name _ n loc Hin) as Hin'.
+        pose proof (Hc1 name) as Hcell. pose proof (sig_for_in name _ a loc Hin) as Hin'.
         eapply conv_bind_const; [reflexivity|].
         destruct (alist_get name (l_scoped ls1)) as [cell|] eqn:Ecell; [|rewrite Hcell in Hin'; destruct Hin'].
         eapply conv_bind_const; [reflexivity|].
@@ -279,7 +281,7 @@ Section Force2Conv.
         { apply (conv_lres (fun F => force_scoped' F name cell ls2 p1) _ B1 _ _ _ HB1). intros F.
           apply (force_scoped_ok call t fl F name cell w ls2 p1 Hnd Hcell (S1_S0 call _ _ w _ Hst1) Hb1). }
         destruct HP as (-> & Hb3 & st3 & sc3 & -> & Hst3 & (Hsc3 & Hun3)). cbn [ls2 set_scoped_l l_store l_scoped] in Hsc3, Hun3, Hst3. subst sc3.
-        cbv zeta. rewrite (nmap_get_forced_some _ n loc (sig_for_nodup name _ Hnd) Hin').
+        cbv zeta. rewrite (resolve_forced t fl w name n a loc Hnd Hac Hws Ha Hin).
         eapply conv_bind_const; [reflexivity|].
         set (sc4 := alist_set name (SVForced (forced_map (sig_for name (w_sig w)))) (alist_set name SVForcing (l_scoped ls1))).
         assert (Hc4 : cells_ok call w sc4).
@@ -289,23 +291,23 @@ Section Force2Conv.
         apply (Hvar (N.of_nat loc) v pb Hn' (set_scoped_l sc4 (set_store st3 ls1)) p3 (conj Hst4 Hc4) Hb3).
     - intros f args vs v HF Hc ls p Hst Hb. eapply conv_shift; [intros F; cbn [eval_lv]; reflexivity|].
       destruct (poll_nob L_eval_value ls p Hb) as (p' & E & Hb'). unfold bind at 1, lpoll. rewrite E.
-      apply (gconv_call call _ _ _ (T1_refl k w) (T1_trans k w) eval_lv' (spec1 k w Hnd) f args vs v ls p' HF Hc Hst Hb').
+      apply (gconv_call call _ _ _ (T1_refl k w) (T1_trans k w) eval_lv' (spec1 k w Hnd Hac Hws) f args vs v ls p' HF Hc Hst Hb').
   Qed.
 
-  Lemma force1_full_convP w lv v ls p : sig_nodup w -> Sfull call w (l_store ls) -> cells_ok call w (l_scoped ls) -> den2 w false lv v -> nob p ->
+  Lemma force1_full_convP w lv v ls p : sig_nodup w -> sig_antichain w -> wstatic t fl w -> Sfull call w (l_store ls) -> cells_ok call w (l_scoped ls) -> den2 w false lv v -> nob p ->
     convP (fun F => eval_lv' F lv ls p) (full_post1 call w v ls).
   Proof.
-    intros Hnd Hst Hc Hd Hb. apply convP_of_conv; [|intros F; apply (force1_full call t fl F w lv v ls p Hnd Hst Hc Hd Hb)].
+    intros Hnd Hac Hws Hst Hc Hd Hb. apply convP_of_conv; [|intros F; apply (force1_full call t fl F w lv v ls p Hnd Hac Hws Hst Hc Hd Hb)].
     pose proof Hd as Hd'. rewrite <- (wcut_all w (length (l_store ls))) in Hd' by (symmetry; apply (proj1 Hst)).
-    apply (force1_conv w Hnd _ lv v Hd' ls p (conj (Sfull_S1 call _ w _ Hst) Hc) Hb).
+    apply (force1_conv w Hnd Hac Hws _ lv v Hd' ls p (conj (Sfull_S1 call _ w _ Hst) Hc) Hb).
   Qed.
-  Lemma force1_full_thunk_convP w i ls p : sig_nodup w -> Sfull call w (l_store ls) -> cells_ok call w (l_scoped ls) -> (i < length (l_store ls))%nat -> nob p ->
+  Lemma force1_full_thunk_convP w i ls p : sig_nodup w -> sig_antichain w -> wstatic t fl w -> Sfull call w (l_store ls) -> cells_ok call w (l_scoped ls) -> (i < length (l_store ls))%nat -> nob p ->
     convP (fun F => force_thunk' F (N.of_nat i) ls p)
           (fun _ ls' p' => nob p' /\ exists st' sc', ls' = set_scoped_l sc' (set_store st' ls) /\ Sfull call w st' /\ cells_ok call w sc').
   Proof.
-    intros Hnd Hst Hc Hi Hb. apply convP_of_conv; [|intros F; apply (force1_full_thunk call t fl F w i ls p Hnd Hst Hc Hi Hb)].
+    intros Hnd Hac Hws Hst Hc Hi Hb. apply convP_of_conv; [|intros F; apply (force1_full_thunk call t fl F w i ls p Hnd Hac Hws Hst Hc Hi Hb)].
     pose proof (proj1 Hst) as Hlen. destruct (nth_error (w_rho w) i) as [[v pb]|] eqn:Ev; [|apply nth_error_None in Ev; lia].
-    apply (thunk1_conv_aux w Hnd (length (l_store ls)) (fun k' _ => force1_conv w Hnd k') (N.of_nat i) v pb ls p (conj (Sfull_S1 call _ w _ Hst) Hc)); rewrite ?Nnat.Nat2N.id; assumption.
+    apply (thunk1_conv_aux w Hnd (length (l_store ls)) (fun k' _ => force1_conv w Hnd Hac Hws k') (N.of_nat i) v pb ls p (conj (Sfull_S1 call _ w _ Hst) Hc)); rewrite ?Nnat.Nat2N.id; assumption.
   Qed.
   Lemma force_cell_full_convP w name ls p : sig_nodup w -> Sfull call w (l_store ls) -> cells_ok call w (l_scoped ls) -> nob p ->
     convP (fun F => (c <- cell_get name ;;
@@ -334,12 +336,11 @@ Section Expr2Conv.
   Variable okfn : ident -> Prop.
   Variable purev : ident -> bool.
   Hypothesis Hpure : forall f, okfn f -> pure_fn call f.
-  Hypothesis Hinh : f_inherited fl = [].
   Variable m : qmatch.
 
   Notation den2 := (den2 call).
-  Notation Renv2 := (Renv2 call purev).
-  Notation epost2 := (epost2 call purev).
+  Notation Renv2 := (Renv2 t fl call purev).
+  Notation epost2 := (epost2 t fl call purev).
   Notation Qd := (Qd call).
   Notation fexpr2' := (fexpr2 okfn purev m).
   Notation env_rel' := (env_rel m).
@@ -366,28 +367,28 @@ Section Expr2Conv.
 
   Lemma unscoped_get_conv2 b name : (b = true -> purev name = true) -> econv2 (Qd b) (unscoped_get glob name) (fun _ => lunscoped_get glob name).
   Proof.
-    intros Hpn ss p v ss' p' H w ls pl HR Hb. apply convP_of_lres; [apply (unscoped_get_sim2 glob call purev b name Hpn _ _ _ _ _ H w ls pl HR Hb)|].
+    intros Hpn ss p v ss' p' H w ls pl HR Hb. apply convP_of_lres; [apply (unscoped_get_sim2 t fl glob call purev b name Hpn _ _ _ _ _ H w ls pl HR Hb)|].
     unfold lunscoped_get. destruct (globals_get glob name); [discriminate|]. unfold bind, get_state. destruct (varmap_get (l_locals ls) name); discriminate.
   Qed.
   Lemma unscoped_add_conv2 ll name v lv mu ss p u ss' p' w ls pl :
     unscoped_add glob name v mu ss p = Ok (u, ss', p') -> Renv2 w ss ls -> den2 w (purev name) lv v -> nob pl ->
     convP (fun _ : nat => lunscoped_add glob ll name lv mu ls pl) (epost2 (@Qtrue2 unit unit) w tt ss ss' ls).
-  Proof. intros H HR Hd Hb. apply convP_of_lres; [apply (unscoped_add_sim2 glob call purev ll name v lv mu _ _ _ _ _ w ls pl H HR Hd Hb)|apply lunscoped_add_noof]. Qed.
+  Proof. intros H HR Hd Hb. apply convP_of_lres; [apply (unscoped_add_sim2 t fl glob call purev ll name v lv mu _ _ _ _ _ w ls pl H HR Hd Hb)|apply lunscoped_add_noof]. Qed.
   Lemma unscoped_set_conv2 ll name v lv ss p u ss' p' w ls pl :
     unscoped_set glob name v ss p = Ok (u, ss', p') -> Renv2 w ss ls -> den2 w (purev name) lv v -> nob pl ->
     convP (fun _ : nat => lunscoped_set glob ll name lv ls pl) (epost2 (@Qtrue2 unit unit) w tt ss ss' ls).
-  Proof. intros H HR Hd Hb. apply convP_of_lres; [apply (unscoped_set_sim2 glob call purev ll name v lv _ _ _ _ _ w ls pl H HR Hd Hb)|apply lunscoped_set_noof]. Qed.
+  Proof. intros H HR Hd Hb. apply convP_of_lres; [apply (unscoped_set_sim2 t fl glob call purev ll name v lv _ _ _ _ _ w ls pl H HR Hd Hb)|apply lunscoped_set_noof]. Qed.
   Lemma lpop_frame_conv2 w ss ls pl f up : Renv2 w ss ls -> s_locals ss = f :: up -> nob pl ->
     convP (fun _ : nat => lpop_frame ls pl) (epost2 (@Qtrue2 unit unit) w tt ss (sset_locals up ss) ls).
   Proof.
-    intros HR E Hb. apply convP_of_lres; [apply (lpop_frame_sim2 call purev w ss ls pl f up HR E Hb)|].
+    intros HR E Hb. apply convP_of_lres; [apply (lpop_frame_sim2 t fl call purev w ss ls pl f up HR E Hb)|].
     unfold lpop_frame, bind, get_state. destruct (l_locals ls); discriminate.
   Qed.
 
   (* eager evaluation *)
   Lemma eager_conv2 (mlf : nat -> M lstate lvalue) (h : nat -> nat) w v ss ss' ls pl : (forall lf, (lf <= h lf)%nat) ->
     convP (fun lf => mlf lf ls pl) (epost2 (Qd true) w v ss ss' ls) ->
-    convP (fun lf => bind (mlf lf) (eval_lv t fl call (h lf)) ls pl) (eager_post2 call purev w v ss ss' ls).
+    convP (fun lf => bind (mlf lf) (eval_lv t fl call (h lf)) ls pl) (eager_post2 t fl call purev w v ss ss' ls).
   Proof.
     intros Hh H. apply (convP_bind mlf (fun lf lv => eval_lv t fl call (h lf) lv)). eapply convP_mono; [exact H|].
     intros lv ls1 pl1 (Hb1 & S1 & Hf1 & w1 & Hp1 & (Hst1 & Hl1 & Hsc1) & Hd).
@@ -504,11 +505,17 @@ Section Expr2Conv.
       apply (convP_bind (fun lf => leval' lf ll e) (fun _ sv0 => ret (LScoped sv0 name))).
       eapply convP_mono; [apply (IH le ll e false Hfs Henv _ _ _ _ _ H1 w ls pl HR Hb)|].
       intros slv ls1 pl1 (Hb1 & S1 & Hf1 & w1 & Hp1 & HR1 & Hd1). apply convP_ret.
-      unfold scoped_get_at, bind, get_state in H3. rewrite (inherited_false fl Hinh) in H3.
-      destruct (scoped_lookup (s_scoped s1) n name) as [v0|] eqn:El; [|discriminate]. apply ret_ok in H3. destruct H3 as (-> & -> & ->).
-      destruct (proj2 (proj2 HR1) n name v0 El) as (loc & pb & Hin & Hn).
+      assert (Hres : exists a, (a = n \/ (inherited fl name = true /\ In a (anc t n))) /\ scoped_lookup (s_scoped s1) a name = Some v /\ ss' = s1 /\ p' = p1).
+      { unfold scoped_get_at, bind, get_state in H3. destruct (scoped_lookup (s_scoped s1) n name) as [v0|] eqn:El.
+        - apply ret_ok in H3. destruct H3 as (-> & -> & ->). exists n. auto.
+        - destruct (inherited fl name) eqn:Ei; [|discriminate]. rewrite ancestor_lookup_nearest in H3.
+          destruct (first_some _ _) as [v0|] eqn:Ef; [|discriminate]. apply ret_ok in H3. destruct H3 as (-> & -> & ->).
+          apply first_some_In in Ef. destruct Ef as (a & Ha & Hl). exists a. split; [right; split; [reflexivity|exact Ha]|auto]. }
+      destruct Hres as (a & Ha & El & -> & ->).
+      destruct (proj2 (proj2 HR1)) as [[Wt Wi] Hsr]. destruct (Hsr a name v El) as (loc & pb & Hin & Hn).
       split; [exact Hb1|]. split; [exact S1|]. split; [exact Hf1|]. exists w1. split; [exact Hp1|]. split; [exact HR1|].
-      apply (d2_scoped call w1 false slv name n loc v0 pb eq_refl Hd1 Hin Hn).
+      apply (d2_scoped call w1 false slv name n a loc v pb eq_refl Hd1); [|exact Hin|exact Hn].
+      destruct Ha as [->|[Hi Hanc]]; [left; reflexivity|right]. unfold winh. rewrite Wi, Wt. split; assumption.
     - (* call *)
       destruct Hf as [Hok Hargs].
       apply bind_ok in H. destruct H as (u & s1 & p1 & H1 & H). apply bind_ok in H. destruct H as (ps & s2 & p2 & H2 & H3).
@@ -529,7 +536,7 @@ Section Expr2Conv.
 
   Lemma leager_conv2 fuel le ll e ss p v ss' p' w ls pl : fexpr2' true e -> env_rel' le ll ->
     eval' fuel le e ss p = Ok (v, ss', p') -> Renv2 w ss ls -> nob pl ->
-    convP (fun lf => leager t fl glob call lf ll e ls pl) (eager_post2 call purev w v ss ss' ls).
+    convP (fun lf => leager t fl glob call lf ll e ls pl) (eager_post2 t fl call purev w v ss ss' ls).
   Proof.
     intros Hf Henv H HR Hb. unfold leager.
     apply (eager_conv2 (fun lf => leval' lf ll e) (fun lf => (lf + default_eval_fuel)%nat) w v ss ss' ls pl le_h2).
